@@ -896,10 +896,23 @@ def build(tier, seed):
         ("seq/nth-of-snoc", [a], z3.And(z3.Implies(z3.And(a >= 0, a < z3.Length(Sa)), z3.Concat(Sa, z3.Unit(e))[a] == Sa[a]),
                                         z3.Concat(Sa, z3.Unit(e))[z3.Length(Sa)] == e), []),
     ]
+    def repair_small(rng, m):
+        """as `repair`, with small copy counts when the data is randomly generated (the native views expand the vectors)"""
+        out = repair(rng, m)
+        if rng is not None:
+            for k, v in out.items():
+                if isinstance(v, dict) and v.get("__class__") == "Shots" and v.get("total_shots") is not None:
+                    sv = [dict(e, shots=1 + e["shots"] % 40, copies=1 + e["copies"] % 5) for e in v["shot_vector"]]
+                    out[k] = dict(v, shot_vector=sv, total_shots=sum(e["shots"] * e["copies"] for e in sv), _frozen=True)
+                elif isinstance(v, int) and not isinstance(v, bool):
+                    out[k] = v % 7 - 1
+                elif isinstance(v, float):
+                    out[k] = rng.choice([0.5, 1.5, 0.25, 2.0, 1.75, 0.1, -1.0, 3.0])
+        return out
     for fc in contracts:
         for cs in fc.cases:
             if cs.native_gen is None:
-                cs.native_gen = repair
+                cs.native_gen = repair if fc.world is w else repair_small
         plan.fn_under_contract(fc.world.file, fc.qualname)
         for ob, cs in zip(obligations_for("C44", fc, tier), fc.cases):
             # the deepening contracts fall back to their bounded stand-in when an edit takes the function out of reach (DESIGN 2.6)
